@@ -101,6 +101,22 @@ Section FlexBlind.
       constructor; [reflexivity|apply IH].
   Qed.
 
+  (* ------------------------------------------------------------------ the two child loops of the model ARE the source's *)
+
+  (* Model/FlexAlg.v `hidden_flags` / `abs_children` are the predicates TRANSLATED from the hidden loop of compute_preliminary and from
+     the `continue` test of perform_absolute_layout_on_absolute_children; the translator also checks (syntactically) that the hidden loop's
+     calls are the canonical query + with_order(order), and that every other tree call of flexbox.rs addresses `<item>.node` *)
+  Lemma flex_loops_are_generated (st : list FS) :
+    hidden_flags st = map (fun s => flex_hidden_pass_visits (f_bgm s) (f_position s)) st /\
+    abs_children st = filter (fun c => negb (flex_absolute_pass_skips (@f_position T) (@f_bgm T) (snd c))) (g_enumerate st) /\
+    flex_hidden_pass_is_canonical = true /\ flex_tree_calls_address_item_only = true.
+  Proof.
+    split; [|split; [|split; reflexivity]].
+    - unfold hidden_flags. apply map_ext. intros s. unfold s_hidden, g_is_none, flex_hidden_pass_visits. reflexivity.
+    - unfold abs_children. apply filter_ext. intros c. unfold s_hidden, s_absolute, g_is_none, g_is_absolute, flex_absolute_pass_skips.
+      reflexivity.
+  Qed.
+
   (* ------------------------------------------------------------------ C05: HiddenBlind *)
 
   Lemma bare_none_is_none : f_is_none (bare_none_fstyle (T := T)) = true.
